@@ -66,6 +66,18 @@ def gen (n : Nat) : G (List String) := do
       else encBE 2 10 ++ encBE 2 (16 + nsets * one.length) ++ encBE 4 2 ++ encBE 4 3 ++ encBE 4 4
     let many : Bytes := (hdr ++ (List.replicate nsets one).flatten).take 9000
     out := out ++ [allocLine pipe e clock many 0]
+    -- (f) the largest sFlow datagrams the receive buffer holds, made of minimal samples each claiming 1000 records
+    --     (the cap): 448 counter samples of 20 bytes / 224 flow samples of 40 bytes
+    let many2 : Bytes ← (do
+      if (← bool) then
+        let one : Bytes := encBE 4 2 ++ encBE 4 12 ++ encBE 4 1 ++ encBE 4 7 ++ encBE 4 1000
+        let k ← pick [448, 448, 100, 447]
+        pure (encBE 4 5 ++ encBE 4 1 ++ [10, 0, 0, 1] ++ encBE 4 0 ++ encBE 4 1 ++ encBE 4 2 ++ encBE 4 k ++ (List.replicate k one).flatten)
+      else
+        let one : Bytes := encBE 4 1 ++ encBE 4 32 ++ encBE 4 1 ++ encBE 4 7 ++ encBE 4 10 ++ encBE 4 0 ++ encBE 4 0 ++ encBE 4 1 ++ encBE 4 2 ++ encBE 4 1000
+        let k ← pick [224, 224, 50]
+        pure (encBE 4 5 ++ encBE 4 1 ++ [10, 0, 0, 1] ++ encBE 4 0 ++ encBE 4 1 ++ encBE 4 2 ++ encBE 4 k ++ (List.replicate k one).flatten))
+    out := out ++ [allocLine (if i % 2 = 0 then "sf" else "auto") e clock many2 0]
     -- (d) degenerate templates
     out := out ++ [allocLine "nf" e clock (← C01.degenerate 10) 1, allocLine "nf" e clock (← C01.degenerate 9) 1]
   pure out
